@@ -61,7 +61,8 @@ Definition p_mismatches (cs : list pcase) : list N :=
   map p_id (filter (fun c => negb (p_agree c)) cs).
 
 (* the property on the implementation's own observation: a parser on the path of the
-   receive loop must not panic.  Sites 6 (arp.Unmarshal: handleARP is unreachable) and 7
+   receive loop must not panic (signature = the observed class, so that a regression of
+   one of the repaired defects is reported under its own name).  Sites 6 (arp.Unmarshal: handleARP is unreachable) and 7
    (fewer than 14 bytes: excluded by the quantifier) are outside the property. *)
 Definition p_sig (c : pcase) : N :=
   if p_class c =? 2 then
@@ -95,7 +96,8 @@ Record hcase := mkH {
   h_fatal_at : Z;                (* mode 0: index of the frame that panicked *)
   h_rets : list Z;               (* mode 0, h_rep = 0: per processed frame 0 nil, 1 error, 2 panic *)
   h_events : list uevent;        (* "udp" events observed *)
-  h_count : Z                    (* occupied state-table slots at the end (alive only) *)
+  h_count : Z;                   (* occupied state-table slots at the end (alive only) *)
+  h_tx : Z                       (* mode 0, h_rep = 0: frames queued for transmission; -1 not observed *)
 }.
 
 Definition ev_eqb (a b : uevent) : bool :=
@@ -137,8 +139,16 @@ Definition has_beyond (os : list rxo) : bool :=
 Definition occupied (t : table) : Z :=
   zlen (filter (fun s => match s with Some _ => true | None => false end) t).
 
+Fixpoint tx_of (os : list rxo) : Z :=
+  match os with
+  | [] => 0
+  | RTcp _ true :: r => 1 + tx_of r
+  | _ :: r => tx_of r
+  end.
+
 Record hmodel := mkHM {
-  m_beyond : bool; m_fatal : Z; m_fatal_at : Z; m_rets : list Z; m_events : list uevent; m_count : Z }.
+  m_beyond : bool; m_fatal : Z; m_fatal_at : Z; m_rets : list Z; m_events : list uevent;
+  m_count : Z; m_tx : Z }.
 
 Definition frame_is_tcp (f : bytes) : bool :=
   match eth_parse f with
@@ -148,8 +158,10 @@ Definition frame_is_tcp (f : bytes) : bool :=
   | _ => false
   end.
 
-(* closed form for a flood of identical answered SYNs (Proofs.flood_closed_form): the
-   first c_cap copies are answered, the next one finds the table full *)
+(* closed form for a flood of identical SYNs within 30 s (Proofs.flood_closed_form): the
+   first c_cap copies open a connection, every further one is dropped (table full);
+   the frames after the flood are not TCP and do not look at the table
+   (Proofs.rx_non_tcp_table_indep) *)
 Definition model_hist (c : hcase) : hmodel :=
   let cf := h_cfg c in
   if h_rep c =? 0 then
@@ -157,19 +169,20 @@ Definition model_hist (c : hcase) : hmodel :=
     let '(s, i) := first_fatal os 0 in
     mkHM (has_beyond os) s i (rets_of os) (events_of os)
          (match run_table cf orc_c02 [] (h_frames c) with Some t => occupied t | None => -1 end)
+         (tx_of os)
   else
     match h_frames c with
     | (t0, f) :: rest =>
         match rx cf orc_c02 [] t0 f with
-        | (RTcp 1, _) =>
+        | (RTcp 1 _, _) =>
             if negb (h_span c <=? 30000) || existsb (fun tf => frame_is_tcp (snd tf)) rest
-            then mkHM true 0 (-1) [] [] (-1)
-            else if h_rep c <=? c_cap cf
-            then mkHM false 0 (-1) [] (events_of (run cf orc_c02 [] rest)) (h_rep c)
-            else mkHM false SITE_TABLE_FULL (c_cap cf) [] [] (-1)
-        | _ => mkHM true 0 (-1) [] [] (-1)
+               || negb (0 <=? c_cap cf)
+            then mkHM true 0 (-1) [] [] (-1) (-1)
+            else mkHM false 0 (-1) [] (events_of (run cf orc_c02 [] rest))
+                      (Z.min (h_rep c) (c_cap cf)) (-1)
+        | _ => mkHM true 0 (-1) [] [] (-1) (-1)
         end
-    | [] => mkHM true 0 (-1) [] [] (-1)
+    | [] => mkHM true 0 (-1) [] [] (-1) (-1)
     end.
 
 Definition h_agree (c : hcase) : bool :=
@@ -179,7 +192,8 @@ Definition h_agree (c : hcase) : bool :=
   ((h_mode c =? 1) || (m_fatal_at m =? h_fatal_at c)) &&
   ((h_mode c =? 1) || negb (h_rep c =? 0) || zs_eqb (m_rets m) (h_rets c)) &&
   (negb (h_fatal c =? 0) ||
-   (evs_same (m_events m) (h_events c) && ((h_count c <? 0) || (m_count m =? h_count c)))).
+   (evs_same (m_events m) (h_events c) && ((h_count c <? 0) || (m_count m =? h_count c)) &&
+    ((h_tx c <? 0) || (m_tx m <? 0) || (m_tx m =? h_tx c)))).
 
 Definition h_mismatches (cs : list hcase) : list N :=
   map h_id (filter (fun c => negb (h_agree c)) cs).
